@@ -16,6 +16,7 @@ import (
 type RA struct {
 	Form string // "" absent | "sec" | "date" (IMF-fixdate now+Sec) | "neg" (-Sec) | "pastdate" (now-Sec) | "garbage"
 	Sec  int
+	Pad  int    // Form "sec": number of leading zeros in the spelling ("010" is 10: delay-seconds = 1*DIGIT, decimal)
 	Text string // garbage text
 }
 
@@ -54,7 +55,7 @@ var badBodies = []string{"", "{", "not json at all", "<html><body>503</body></ht
 	`{"sct_version":0,"timestamp":1} trailing`, `[1,2,3]`, `{"sct_version":0,"id":"!!!not-base64!!!"}`, "\x00\x01\x02", `"just a string"`}
 
 // Values that neither strconv.Atoi-style delay-seconds nor an HTTP-date can be read from.
-var garbageRA = []string{"soon", "12.5", "1e3", "0x10", "Mon, 99 Foo 2000 25:61:61 GMT", "99999999999999999999", "1 2", "--5", "120s", "never", "½"}
+var garbageRA = []string{"soon", "12.5", "1e3", "0x10", "Mon, 99 Foo 2000 25:61:61 GMT", "99999999999999999999", "1 2", "--5", "120s", "never", "½", "1_0", "0b11", "0o17", "+5", "1e1"}
 
 var retryStatuses = []int{408, 429, 503}
 var stopStatusesCore = []int{400, 403, 404, 500, 501}
@@ -83,10 +84,14 @@ func genRA(t *rapid.T) RA {
 	case 0, 1, 2:
 		return RA{}
 	case 3, 4, 5, 6:
-		if rapid.Bool().Draw(t, "anchor") {
-			return RA{Form: "sec", Sec: pick(t, secAnchors, "sec")}
+		pad := 0
+		if rapid.IntRange(0, 2).Draw(t, "padded") == 0 {
+			pad = rapid.IntRange(1, 3).Draw(t, "pad")
 		}
-		return RA{Form: "sec", Sec: rapid.IntRange(0, 600).Draw(t, "sec")}
+		if rapid.Bool().Draw(t, "anchor") {
+			return RA{Form: "sec", Sec: pick(t, secAnchors, "sec"), Pad: pad}
+		}
+		return RA{Form: "sec", Sec: rapid.IntRange(0, 600).Draw(t, "sec"), Pad: pad}
 	case 7, 8, 9:
 		if rapid.Bool().Draw(t, "anchor") {
 			return RA{Form: "date", Sec: pick(t, secAnchors, "sec")}
@@ -325,6 +330,9 @@ func genShared(t *rapid.T) Case {
 			switch rapid.IntRange(0, 9).Draw(t, "shape") {
 			case 0, 1, 2, 3: // a long demand
 				e.RA = RA{Form: pick(t, []string{"sec", "date"}, "form"), Sec: rapid.IntRange(30, 600).Draw(t, "long")}
+				if e.RA.Form == "sec" {
+					e.RA.Pad = rapid.IntRange(0, 2).Draw(t, "pad")
+				}
 			case 4, 5, 6: // a short one
 				e.RA = RA{Form: "sec", Sec: rapid.IntRange(0, 3).Draw(t, "short")}
 			case 7:
